@@ -480,6 +480,9 @@ def wildcard_statements(conn, thorough):
         ('SELECT i + 1, upper(s) AS u FROM #t', ['i + 1', 'u']),
         ('SELECT i FROM #t ORDER BY j, upper(s)', ['i']),
         ('SELECT s, count(*) AS n FROM #t GROUP BY s, j % 2 HAVING sum(j) >= 0 ORDER BY max(j)', ['s', 'n']),
+        # un-aliased expression targets keep the letter case of their source text as column names of the sub-query
+        ('SELECT s, SUM(i), COUNT(*), Max(j) - MIN(j) FROM #t GROUP BY s', ['s', 'SUM(i)', 'COUNT(*)', 'Max(j) - MIN(j)']),
+        ("SELECT s, UPPER(s), 'Total', s ~ 'Ab', I + J FROM #t", ['s', 'UPPER(s)', "'Total'", "s ~ 'Ab'", 'I + J']),
         ('SELECT * FROM #t', ['i', 'j', 's', 'd', 'b', 'dt']),
         ('SELECT * FROM (SELECT j AS q, i FROM #t ORDER BY s)', ['q', 'i']),
         ('SELECT date, account AS acc, number FROM #postings ORDER BY flag', ['date', 'acc', 'number']),
